@@ -47,6 +47,8 @@ def plan(tier, seed):
             for net in range(1 if kind == "positive" else 2):
                 for part in range(3):
                     items.append(dict(kind=kind, arch=arch, scope="full", net=net, part=part))
+        for arch in ([1, 1], [2, 3], [3, 2], [4, 4]):
+            items.append(dict(kind=kind, arch=arch, scope="stateful"))
     return items
 
 
@@ -62,10 +64,10 @@ def _assignments(item):
                 yield x
 
 
-def check_case(acc, kind, arch, params, tag=None):
-    case = dict(kind=kind, arch=arch, params=params)
+def check_case(acc, kind, arch, params, tag=None, st=None, history=None):
+    case = dict(kind=kind, arch=arch, params=params) if history is None else dict(kind=kind, arch=arch, params=params, history=history)
     L = lib()
-    st = build_state(kind, arch, params)
+    st = build_state(kind, arch, params) if st is None else st
     n = arch[0]
     space = call(st.generate_hilbert_space)
     lam = split_binary(params[0], arch)
@@ -124,6 +126,23 @@ def check_case(acc, kind, arch, params, tag=None):
         psi2 = L.cplx.numpy(call(st2.psi, space))
         if not close(np.abs(psi2), np.abs(psi), TOL):
             bad("born:modulus-depends-on-phase-network", np.abs(psi2), np.abs(psi))
+        # the same must hold for a state built from a user-supplied RBM (module= path): set the two
+        # networks to different values afterwards and compare with the reference for the AMPLITUDE values
+        if tag is not None and tag[0] == "pat":
+            from ..common import set_flat
+            try:
+                m = L.BinaryRBM(arch[0], arch[1], gpu=False)
+                st3 = call(L.ComplexWaveFunction, arch[0], gpu=False, module=m)
+                set_flat(st3.rbm_am, params[0])
+                set_flat(st3.rbm_ph, params[1])
+                set_flat(st3.rbm_am, params[0])
+                p3 = call(st3.probability, space).numpy()
+                ph3 = call(st3.phase, space).numpy()
+                with np.errstate(all="ignore"):
+                    if not close(np.log(p3), la, TOL) or not close(ph3, phi, TOL):
+                        bad("born:module-constructed-state-differs-from-definition", [p3, ph3], [np.exp(la), phi])
+            except LibRaised as e:
+                bad(f"born:module-construction-raised:{e.kind}", e.tb, None)
     else:
         if not (np.all(psi.imag == 0) and np.all(psi.real >= 0) and np.all(phs == 0)):
             bad("born:positive-state-not-real-nonnegative", psi, np.abs(psi))
@@ -157,6 +176,9 @@ def check_case(acc, kind, arch, params, tag=None):
 def run_item(item):
     acc = Acc()
     first = True
+    if item["scope"] == "stateful":
+        run_stateful(acc, item)
+        return acc
     for tag, params in _assignments(item):
         check_case(acc, item["kind"], item["arch"], params, tag)
         if first:
@@ -168,7 +190,38 @@ def run_item(item):
     return acc
 
 
+def run_stateful(acc, item):
+    """non-initial states: one LIVE model is evaluated, updated in place (four styles), evaluated again"""
+    from ..common import update_params, UPDATE_STYLES, pattern, net_sizes
+    kind, arch = item["kind"], item["arch"]
+    sizes = net_sizes(kind, arch)
+    seq = [[pattern(n, q, r) for r, n in enumerate(sizes)] for q in range(5)]
+    st = build_state(kind, arch, seq[0])
+    check_case(acc, kind, arch, seq[0], ("stateful", 0), st=st, history=[])
+    hist = []
+    for i, style in enumerate(UPDATE_STYLES):
+        hist = hist + [dict(update=style, to_pattern=i + 1)]
+        update_params(st, seq[i + 1], style)
+        check_case(acc, kind, arch, seq[i + 1], ("stateful", i + 1), st=st, history=hist)
+    acc.sample(dict(kind=kind, arch=arch, scope="stateful", history=hist), cap=1)
+    acc.states = acc.evaluations
+    acc.transitions = acc.evaluations * (2 ** arch[0]) * 2
+    acc.traces = acc.evaluations
+
+
 def replay(case):
     acc = Acc()
+    if case.get("history"):
+        from ..common import update_params, pattern, net_sizes
+        sizes = net_sizes(case["kind"], case["arch"])
+        st = build_state(case["kind"], case["arch"], [pattern(n, 0, r) for r, n in enumerate(sizes)])
+        call(st.psi, call(st.generate_hilbert_space))
+        call(st.probability, call(st.generate_hilbert_space))
+        for h in case["history"]:
+            update_params(st, [pattern(n, h["to_pattern"], r) for r, n in enumerate(sizes)], h["update"])
+            if h is not case["history"][-1]:
+                call(st.psi, call(st.generate_hilbert_space))
+        check_case(acc, case["kind"], case["arch"], case["params"], st=st, history=case["history"])
+        return acc
     check_case(acc, case["kind"], case["arch"], case["params"])
     return acc
